@@ -537,3 +537,61 @@ def derives_from(p: Path, t: ast.AST, needle: str) -> bool:
                 for a_ in list(e_.term.args) + [e_.term.func]:
                     todo.extend(n_.id for n_ in ast.walk(a_) if isinstance(n_, ast.Name) and n_.id.startswith(("$l", "$c")))
     return False
+
+
+# ------------------------------------------------------------------ copy protocol of a class
+COPY_HOOKS = ("__copy__", "__deepcopy__", "__reduce__", "__reduce_ex__", "__getstate__", "__setstate__", "__getnewargs__", "__getnewargs_ex__")
+
+
+def copy_hooks(ctx, cls_name: str, names=COPY_HOOKS):
+    """The copy-protocol methods instances of the class respond to (own or inherited inside the package): [(name, FuncInfo)]."""
+    c = ctx.p.classes.get(cls_name)
+    if c is None:
+        return []
+    out = []
+    for nm in names:
+        m = ctx.p.lookup_method(c, nm)
+        if m is not None:
+            out.append((nm, m))
+    return out
+
+
+def shallow_copy_missing(ctx, cls_name: str, fields) -> Optional[List[str]]:
+    """What `copy.copy(x)` loses for an instance x of the class: None when the class has no copy hook (the default copy keeps every
+    attribute), else the fields of `fields` that some path of its `__copy__` does not carry over (rebuilt through the constructor
+    with `self.<field>` per field, or `__dict__` copied whole).  Raises AnalysisError for a hook it cannot read."""
+    from .loader import AnalysisError
+
+    hooks = copy_hooks(ctx, cls_name, ("__copy__", "__reduce__", "__reduce_ex__", "__getstate__", "__setstate__", "__getnewargs__", "__getnewargs_ex__"))
+    if not hooks:
+        return None
+    if [nm for nm, _ in hooks] != ["__copy__"]:
+        raise AnalysisError(f"{cls_name}: copy protocol through {', '.join(nm for nm, _ in hooks)} is not analysed")
+    fn = hooks[0][1]
+    init = ctx.p.lookup_method(ctx.p.classes[cls_name], "__init__")
+    a = init.node.args
+    params = [x.arg for x in a.posonlyargs + a.args if x.arg != "self"]
+    missing = set()
+    for p in ctx.paths(fn, exc_edges="none"):
+        if p.kind != "return" or p.value is None:
+            continue
+        v = expand(p.value, p.events)
+        if isinstance(v, ast.Name) and v.id == "self":
+            continue  # the very object: nothing lost (sharing is another rule's business)
+        if isinstance(v, ast.Call) and show(v.func) in ("type(self)", "self.__class__", cls_name, "cls"):
+            given = {}
+            for i, arg in enumerate(v.args):
+                if i < len(params):
+                    given[params[i]] = show(arg)
+            for kw in v.keywords:
+                if kw.arg:
+                    given[kw.arg] = show(kw.value)
+            missing |= {f for f in fields if given.get(f) != f"self.{f}"}
+            continue
+        whole = any(e.kind == "call" and isinstance(e.term.func, ast.Attribute) and e.term.func.attr == "update"
+                    and show(e.term.func.value).endswith(".__dict__") and e.term.args and show(expand(e.term.args[0], p.events)) == "self.__dict__"
+                    for e in p.events)
+        if whole:
+            continue
+        raise AnalysisError(f"{fn.key}: shape of the copy not recognised: {show(v)[:80]}")
+    return sorted(missing)
